@@ -605,7 +605,7 @@ func genArchive(c *ctx) {
 				if len(stream) <= 4096 {
 					segs = c.split(stream, 1)
 				} else {
-					segs = c.split(stream, 3)
+					segs = c.split(stream, 3+len(stream)/120) // the model appends per segment: keep their number in the hundreds
 				}
 			case 2: // the caller's own read chunks (same size both sides, as the unit test does)
 				segs = outs
@@ -640,6 +640,14 @@ func genArchive(c *ctx) {
 					// the stream is fine: the writer refuses an entry because of its name
 					c15ViolateCapped(c, 3, "entry-name-refused:"+refused, "the archive writer refuses an entry whose name is a valid single path element",
 						fmt.Sprintf("%s tree=%s got=%s", key, c15DescNodes(nodes), res))
+					break
+				}
+				if bad := c15UndecodableHeader(rows); bad >= 0 {
+					// the stream is fine: the real decoder does not invert the real encoder on this header
+					r := rows[bad]
+					c.violate("header-roundtrip:"+strings.TrimPrefix(kind, "compressible-headers:"), "an entry header produced by the real encoder (marshalSourceFile + zlib + base64) does not decode to itself through the real decoder",
+						fmt.Sprintf("%s: entry %d of %d, relative path of %d components / %d bytes (first component %.40q): header of %d bytes; writer result %.60s; header=%s",
+							key, bad+1, len(rows), len(r.rel), len(strings.Join(r.rel, "/")), r.rel[0], len(r.header), res, r.header))
 					break
 				}
 				c.violate(c15TreeKey(tmp, &seq, rootSrc, full, "ok|"+want, mode), "the tree written from the archive stream differs from the source tree",
@@ -815,6 +823,85 @@ func genArchive(c *ctx) {
 		})
 	}
 
+	// 5b. every way of getting shorter, on a fixed tree: to zero / by one byte / to half, every non-empty
+	// file as the victim, before the first Read or in the middle of the reading; besides the reader's
+	// verdict the stream it produced is judged (announced size) and written (entries shifted?)
+	shrinkTree := []c15Node{{rel: []string{"A.log"}, data: bytes.Repeat([]byte("line of a log\n"), 21)}, {rel: []string{"d"}, dir: true},
+		{rel: []string{"d", "B"}, data: bytes.Repeat([]byte{'b'}, 130)}, {rel: []string{"C"}, data: bytes.Repeat([]byte("c\n"), 32)}, {rel: []string{"E"}},
+		{rel: []string{"F"}, data: []byte("f")}, {rel: []string{"z-last"}, data: bytes.Repeat([]byte{'z'}, 65)}}
+	for vi, victim := range shrinkTree {
+		if victim.dir || len(victim.data) == 0 {
+			continue
+		}
+		for _, kind := range []string{"to-zero", "by-one", "to-half", "mid-read"} {
+			vi, victim, kind := vi, victim, kind
+			c15Case(c, "shrink", fmt.Sprintf("tree=%s victim=%s (%d bytes) kind=%s (shortened between scan and read)", c15DescNodes(shrinkTree), strings.Join(victim.rel, "/"), len(victim.data), kind), func() {
+				root := newSrc(shrinkTree)
+				a, rd, _, rootSrc := scan(root)
+				vp := filepath.Join(append([]string{root}, victim.rel...)...)
+				newLen := map[string]int64{"to-zero": 0, "by-one": int64(len(victim.data) - 1), "to-half": int64(len(victim.data) / 2), "mid-read": 0}[kind]
+				dflt := []int{1, 7, 512, 32768}[c.rng.Intn(4)]
+				announced := rd.VerifSize()
+				var outs [][]byte
+				var end string
+				c.count("shrink:" + kind)
+				if kind == "mid-read" {
+					// the unmodified stream first, to know how many reads there are; then truncate after the k-th
+					ref, _ := c15Read(rd, nil, dflt, nil)
+					rd.Close()
+					a2, err := trzsz.VerifArchiveScan(root)
+					if err != nil {
+						panic(err)
+					}
+					rd2, err := a2.NewReader()
+					if err != nil {
+						panic(err)
+					}
+					k, n := 1+c.rng.Intn(max(1, len(ref))), 0
+					outs, end = c15Read(rd2, nil, dflt, func() {
+						n++
+						if n == k {
+							os.Truncate(vp, 0)
+						}
+					})
+					rd2.Close()
+					got := c15Concat(outs)
+					switch {
+					case end == "eof" && !bytes.Equal(got, c15Concat(ref)):
+						c.violate("shrink-not-reported:mid-read", "a file truncated while the archive was being read: the reader ends with EOF but the stream is not the scanned tree's",
+							fmt.Sprintf("tree=%s victim=%s truncated to 0 after read %d of %d (buffer %d): produced %d bytes, announced %d", c15DescNodes(shrinkTree), strings.Join(victim.rel, "/"), k, len(ref), dflt, len(got), announced))
+					case end != "eof" && end != "err:shrink":
+						c.violate("shrink-other-error:mid-read", "unexpected reader result", fmt.Sprintf("victim=%s end=%s", strings.Join(victim.rel, "/"), end))
+					}
+					return
+				}
+				if err := os.Truncate(vp, newLen); err != nil {
+					panic(err)
+				}
+				rows := c15Rows(a)
+				tbl := c15Table(rows)
+				outs, end = c15Read(rd, nil, dflt, nil)
+				rd.Close()
+				c.emit(true, "ar_read", hxs(outs)+":"+end, tbl, "-", fmt.Sprint(dflt))
+				detail := fmt.Sprintf("tree=%s victim=%s (entry %d) %d -> %d bytes between scan and read, buffer %d: reader ends with %s after %d bytes, announced %d",
+					c15DescNodes(shrinkTree), strings.Join(victim.rel, "/"), vi, len(victim.data), newLen, dflt, end, len(c15Concat(outs)), announced)
+				if end != "err:shrink" {
+					c.violate("shrink-not-reported:"+kind, "a source file shorter than announced was not reported as an error", detail)
+				}
+				if end == "eof" {
+					if int64(len(c15Concat(outs))) != announced {
+						c.violate("shrink-stream-short:"+kind, "the reader reports success but produced fewer bytes than it announced", detail)
+					}
+					res := c15Write(tmp, &seq, rootSrc, c.split(c15Concat(outs), 50), nil)
+					if want := "ok|" + c15CanonNodes(shrinkTree); res != want {
+						c.violate("shrink-shifts-entries:"+kind, "the stream of a tree with a shrunk file, accepted by the reader, puts wrong bytes into wrong files on the receiving side",
+							detail+fmt.Sprintf(" :: receiver got %s", res))
+					}
+				}
+			})
+		}
+	}
+
 	// 6. reader on explicit entries: directory sizes != 0, announced sizes below / above the
 	// real length, zero announced for a non-empty file
 	for i := 0; i < c.pick(80, 1200); i++ {
@@ -935,6 +1022,9 @@ func genArchive(c *ctx) {
 	// 10. names over the whole of Unicode: the real checkFileName against valid_name on UTF-8 bytes
 	c15Case(c, "names", "all BMP code points", func() { c15NamesTie(c) })
 
+	// 12. every header the sender can produce decodes to itself: headers that compress arbitrarily well
+	c15Headers(c, tmp, roundTrip)
+
 	// 11. the archive stream as a source file: the compression decision around the 128 KiB
 	// point, and whole transfers of such streams with compression auto / yes / no
 	c15Stream(c, tmp)
@@ -943,7 +1033,14 @@ func genArchive(c *ctx) {
 // c15Case runs one case of the generator: a real function that panics or does not return
 // on it is an observation about the implementation (a violation with the case), never a
 // crash or a hang of the harness.
+var c15HungFamilies = map[string]bool{}
+
 func c15Case(c *ctx, kind, desc string, f func()) {
+	if c15HungFamilies[kind] {
+		// a case of this family did not return: its goroutine is still spinning; the family has been reported
+		c.count("skipped-after-hang:" + kind)
+		return
+	}
 	done := make(chan any, 1)
 	go func() {
 		defer func() { done <- recover() }()
@@ -957,7 +1054,8 @@ func c15Case(c *ctx, kind, desc string, f func()) {
 			}
 			c.violate("case-panic:"+kind, "a real function panicked on this case", fmt.Sprintf("%s case=%s panic=%v", kind, desc, r))
 		}
-	case <-time.After(120 * time.Second):
+	case <-time.After(30 * time.Second):
+		c15HungFamilies[kind] = true
 		c.violate("case-hang:"+kind, "a real function did not return on this case", fmt.Sprintf("%s case=%s", kind, desc))
 	}
 }
@@ -1859,4 +1957,231 @@ func c15ViolateCapped(c *ctx, n int, key, what, detail string) {
 	}
 	c15FamilyCount[fam]++
 	c.violate(key, what, detail)
+}
+
+// ---------------------------------------------------------------------------------------
+// the header codec: marshalSourceFile + zlib + base64  against  base64 + zlib + unmarshalSourceFile
+
+type c15HdrShape struct {
+	name  string
+	comps []string // the relative path of the deepest entry; every prefix is an entry (a directory), the last a file
+	disk  bool     // also built on disk and sent as a whole archive (must stay below PATH_MAX)
+}
+
+func c15HeaderShapes(c *ctx) []c15HdrShape {
+	rep := func(s string, n int) string { return strings.Repeat(s, n) }
+	reps := func(cs []string, n int) []string {
+		var out []string
+		for i := 0; i < n; i++ {
+			out = append(out, cs...)
+		}
+		return out
+	}
+	rnd := func(n int) string {
+		b := make([]byte, n)
+		for i := range b {
+			b[i] = "ABCDEFGHIJKLMNOPQRSTUVWXYZabcdefghijklmnopqrstuvwxyz0123456789"[c.rng.Intn(62)]
+		}
+		return string(b)
+	}
+	var shapes []c15HdrShape
+	for _, n := range []int{1, 4, 12, 16, 24, 40} {
+		// on disk up to depth 24: the abstract tree of the model compares whole paths (quartic in the depth)
+		shapes = append(shapes, c15HdrShape{fmt.Sprintf("node_modules-depth-%d", n), append(reps([]string{"node_modules", "pkg"}, n), "index.js"), n <= 24})
+	}
+	shapes = append(shapes, c15HdrShape{"node_modules-depth-64", append(reps([]string{"node_modules", "left-pad"}, 64), "index.js"), false})
+	for _, n := range []int{50, 100, 200, 255} {
+		shapes = append(shapes, c15HdrShape{fmt.Sprintf("run-of-%d-dashes", n), []string{rep("-", n), rep("-", n)}, true})
+	}
+	shapes = append(shapes,
+		c15HdrShape{"run-of-254-bytes-of-e-acute", []string{rep("\u00e9", 127), rep("\u00e9", 127)}, true},
+		c15HdrShape{"run-of-255-bytes-of-cjk", []string{rep("\u6587", 85), rep("\u6587", 85)}, true},
+		c15HdrShape{"same-unicode-name-20-levels", reps([]string{"\u76ee\u5f55"}, 20), true},
+		c15HdrShape{"same-unicode-name-60-levels", reps([]string{"\u76ee\u5f55"}, 60), true},
+		c15HdrShape{"60-components-a", reps([]string{"a"}, 60), true},
+		c15HdrShape{"200-components-a", reps([]string{"a"}, 200), false},
+		c15HdrShape{"1000-components-a", reps([]string{"a"}, 1000), false},
+		c15HdrShape{"14-names-of-255-a", reps([]string{rep("a", 255)}, 14), true},
+		c15HdrShape{"64-names-of-255-a", reps([]string{rep("a", 255)}, 64), false},
+		c15HdrShape{"14-names-of-255-quotes-and-backslashes", reps([]string{rep("\"\\", 127)}, 14), true},
+		c15HdrShape{"control-incompressible-14x255", func() []string {
+			var o []string
+			for i := 0; i < 14; i++ {
+				o = append(o, rnd(255))
+			}
+			return o
+		}(), true},
+		c15HdrShape{"control-ordinary", []string{"src", "main.go"}, true})
+	return shapes
+}
+
+func c15PathSpec(rel []string) string {
+	if len(rel) == 0 {
+		return "-"
+	}
+	hs := make([]string, len(rel))
+	for j, n := range rel {
+		hs[j] = hex.EncodeToString([]byte(n))
+	}
+	return strings.Join(hs, "/")
+}
+
+func c15Headers(c *ctx, tmp string, roundTrip func(nodes []c15Node, kind string, dflts []int, nWrites int)) {
+	for _, sh := range c15HeaderShapes(c) {
+		sh := sh
+		c15Case(c, "header-roundtrip", sh.name, func() {
+			// (a) the codec alone, through the real newArchiveReader (marshal + encode) and the real decoder
+			var es []trzsz.VerifArchiveEntry
+			for k := 1; k <= len(sh.comps); k++ {
+				e := trzsz.VerifArchiveEntry{RelPath: append([]string{"r"}, sh.comps[:k]...), IsDir: k < len(sh.comps)}
+				if !e.IsDir {
+					e.Size = []int64{0, 1, 4096, 1 << 40}[c.rng.Intn(4)]
+				}
+				es = append(es, e)
+			}
+			a := trzsz.VerifArchiveFromEntries("r", 0, es)
+			rd, err := a.NewReader()
+			if err != nil {
+				panic(err)
+			}
+			rd.Close()
+			got := a.Entries()
+			worst := 0.0
+			firstBad := -1
+			var rows []c15Row
+			var parsed []string
+			var want []byte
+			pick := map[int]bool{0: true, len(got) / 2: true, len(got) - 1: true, len(got) - 2: true}
+			for i, e := range got {
+				id, rel, isDir, size, ok := trzsz.VerifParseArchiveHeader(e.Header)
+				good := ok && id == 0 && isDir == e.IsDir && size == e.Size && len(rel) == len(e.RelPath) && !strings.Contains(e.Header, "\n")
+				if good {
+					for j := range rel {
+						good = good && rel[j] == e.RelPath[j]
+					}
+				}
+				js, _ := json.Marshal(c15Hdr{RelPath: e.RelPath, IsDir: e.IsDir, Size: e.Size})
+				if r := float64(len(js)) / float64(max(1, len(e.Header))); r > worst {
+					worst = r
+				}
+				if !good && firstBad < 0 {
+					firstBad = i
+				}
+				if pick[i] || (!good && len(rows) < 8) {
+					rows = append(rows, c15Row{header: e.Header, rel: e.RelPath[1:], dir: e.IsDir, size: e.Size})
+					if ok {
+						d := "0"
+						if isDir {
+							d = "1"
+						}
+						parsed = append(parsed, fmt.Sprintf("%s:%s:%d", c15PathSpec(rel[1:]), d, size))
+					} else {
+						parsed = append(parsed, "none")
+					}
+					if good {
+						want = append(want, '1')
+					} else {
+						want = append(want, '0')
+					}
+				}
+			}
+			c.count("headers:codec")
+			if worst >= 4 {
+				c.count("headers:json-over-header-ratio>=4")
+			}
+			if worst >= 16 {
+				c.count("headers:json-over-header-ratio>=16")
+			}
+			c.emit(true, "ahdr_ok", string(want), c15Table(rows), strings.Join(parsed, ";"))
+			if firstBad >= 0 {
+				e := got[firstBad]
+				c.violate("header-roundtrip:"+sh.name, "an entry header produced by the real encoder (marshalSourceFile + zlib + base64) does not decode to itself through the real decoder",
+					fmt.Sprintf("shape %s: entry %d of %d, relative path of %d components / %d bytes (first component %.40q), is_dir=%v size=%d: header of %d bytes, JSON/header ratio up to %.1f; header=%s",
+						sh.name, firstBad+1, len(got), len(e.RelPath)-1, len(strings.Join(e.RelPath[1:], "/")), e.RelPath[1], e.IsDir, e.Size, len(e.Header), worst, e.Header))
+			}
+		})
+		if !sh.disk {
+			continue
+		}
+		// (b) the same tree on disk through the whole archive round trip (scan, reader, writer, model)
+		var nodes []c15Node
+		for k := 1; k < len(sh.comps); k++ {
+			nodes = append(nodes, c15Node{rel: sh.comps[:k], dir: true})
+		}
+		nodes = append(nodes, c15Node{rel: sh.comps, data: []byte("leaf of " + sh.name + "\n")})
+		if len(sh.comps) > 1 {
+			nodes = append(nodes, c15Node{rel: append(append([]string(nil), sh.comps[:len(sh.comps)-1]...), "empty-dir"), dir: true})
+		}
+		c.count("headers:disk-roundtrip")
+		roundTrip(nodes, "compressible-headers:"+sh.name, []int{1, 100, 32768}, 2)
+	}
+	// (c) whole transfers (NAME record and entry headers): real sendFiles against real recvFiles
+	type pc struct {
+		name  string
+		root  string
+		nodes []c15Node
+		diffs []string
+	}
+	deep := func(n int) []c15Node {
+		var nodes []c15Node
+		var rel []string
+		for i := 0; i < n; i++ {
+			rel = append(append([]string(nil), rel...), "node_modules")
+			nodes = append(nodes, c15Node{rel: rel, dir: true})
+			rel = append(append([]string(nil), rel...), "pkg")
+			nodes = append(nodes, c15Node{rel: rel, dir: true})
+		}
+		return append(nodes, c15Node{rel: append(append([]string(nil), rel...), "index.js"), data: []byte("module.exports = 1\n")})
+	}
+	pcs := []*pc{{name: "node_modules-depth-20", root: "app", nodes: deep(20)},
+		{name: "root-and-entries-runs-of-255", root: strings.Repeat("=", 255), nodes: []c15Node{{rel: []string{strings.Repeat("=", 255)}, dir: true}, {rel: []string{strings.Repeat("=", 255), strings.Repeat("=", 255)}, data: []byte("x")}}},
+		{name: "control-ordinary", root: "app", nodes: []c15Node{{rel: []string{"src"}, dir: true}, {rel: []string{"src", "main.go"}, data: []byte("package main\n")}}}}
+	parallelDo(len(pcs), 4, func(i int) {
+		p := pcs[i]
+		defer func() {
+			if r := recover(); r != nil {
+				p.diffs = append(p.diffs, fmt.Sprintf("panic: %v", r))
+			}
+		}()
+		dir := filepath.Join(tmp, fmt.Sprintf("hdrpair%d", i))
+		root := filepath.Join(dir, "s", p.root)
+		c15Materialise(root, p.nodes)
+		dest := filepath.Join(dir, "d")
+		os.MkdirAll(dest, 0755)
+		r := trzsz.VerifModePairCfg([]string{root}, dest, trzsz.VerifPairCfg{Protocol: 4, TimeoutSec: 3}, 30*time.Second)
+		if r.Hung || r.SendErr != "" || r.RecvErr != "" {
+			p.diffs = append(p.diffs, fmt.Sprintf("no-success: hung=%v sender=%q receiver=%q", r.Hung, r.SendErr, r.RecvErr))
+		}
+		p.diffs = append(p.diffs, sameTree(root, filepath.Join(dest, p.root))...)
+		os.RemoveAll(dir)
+	})
+	for _, p := range pcs {
+		c.count("headers:pair")
+		c.note(true, "headers-pair "+p.name)
+		if len(p.diffs) > 0 {
+			d := strings.Join(p.diffs, "; ")
+			if len(d) > 1500 {
+				d = d[:1500] + "..."
+			}
+			c.violate("pair-tree:compressible-headers:"+p.name, "a whole in-process transfer of a tree with highly compressible NAME record / entry headers did not reproduce the source tree",
+				fmt.Sprintf("root %.40q with %d entries (%s) :: %s", p.root, len(p.nodes), p.name, d))
+		}
+	}
+}
+
+// c15UndecodableHeader: index of the first row whose real header does not decode to the row's meta (-1 = none)
+func c15UndecodableHeader(rows []c15Row) int {
+	for i, r := range rows {
+		_, rel, isDir, size, ok := trzsz.VerifParseArchiveHeader(r.header)
+		good := ok && isDir == r.dir && size == r.size && len(rel) == len(r.rel)+1
+		if good {
+			for j := range r.rel {
+				good = good && rel[j+1] == r.rel[j]
+			}
+		}
+		if !good {
+			return i
+		}
+	}
+	return -1
 }
